@@ -67,6 +67,14 @@ def gen_mps_program(rng, depth=None, allow_add=True, allow_dw=True, max_c=6, sma
                     else:
                         sk = t
                     t = b.add(bb, sk)
+                    if rng.random() < 0.2:
+                        # the same two tensors are summed a second time (two heads starting from
+                        # the same residual sum), the two paths are then joined
+                        t2 = b.add(bb, sk)
+                        p1 = b.conv(b.act(t, 'relu_f'), cout=c, s=1, pad='same')
+                        p2 = b.conv(b.act(t2, 'relu_f'), cout=c, s=1, pad='same')
+                        t = b.add(b.act(p1, 'relu_f'), b.act(p2, 'relu_f'))
+                        b.features.add('same-sum-twice')
                     t = b.act(t, 'relu_mod')
                 elif allow_reuse and r < 0.93 and b.origin[t] != 'input' and \
                         min(b.shapes[t][1:]) >= 4:
